@@ -1229,6 +1229,28 @@ func (e *engine) finish() {
 			}
 		}
 	}
+	// C09 on forwarded commits: on every node the log is one verified chain that ends at the position
+	// (a node's files and position are read under the node's write activity having stopped: the script is over)
+	if !e.dead {
+		for _, n := range roles {
+			if len(w.n[n].Exits()) > 0 {
+				continue
+			}
+			e.res.Evals++
+			var probs []string
+			for try := 0; try < 50; try++ { // a frame may still be on its way: position and files are read together until they agree
+				p := w.pos(n)
+				probs = sim.ChainProblems(w.n[n].DBDir(w.db), uint64(p.TXID), uint64(p.PostApplyChecksum))
+				if len(probs) == 0 || w.pos(n) == p && try > 5 {
+					break
+				}
+				time.Sleep(10 * time.Millisecond)
+			}
+			if len(probs) > 0 {
+				e.fail("C13.log-is-one-chain", "chain-problem/"+n, true, map[string]any{"node": n, "problems": probs})
+			}
+		}
+	}
 	// leads outside C13 (recorded, never a verdict)
 	if !e.blocked["R"] && !e.dead {
 		lt := w.lockTable("R")
